@@ -247,6 +247,10 @@ def stack_rows(I, rows):
 def arr_getitem(I, b, ix, node=None):
     what = ast.unparse(node) if node is not None else 'getitem'
     A = I.A(b)
+    h = I.ext.get('mat_getitem')
+    if h is not None:
+        r = h(I, b, ix)
+        if r is not None: return r
     if not isinstance(ix, tuple): ix = (ix,)
     if any(x is Ellipsis for x in ix): raise Unsupported("ellipsis index")
     # np.newaxis (None) handling
